@@ -667,6 +667,19 @@ class Interp:
             r = self.model._isinstance(self, v, cls, p)
             if r is not True:
                 return False if r is False else None  # Opaque: undecidable
+            if isinstance(v, SObj):
+                names = [n for n, _ in v.cls.dataclass_fields()]
+                if len(p.patterns) > len(names):
+                    return None
+                for sub, name in list(zip(p.patterns, names, strict=False)) + list(zip(p.kwd_patterns, p.kwd_attrs, strict=True)):
+                    try:
+                        attr = self.getattr(v, name, p)
+                    except AnalysisError:
+                        return False
+                    r2 = self.match_pattern(sub, attr, binds, env, mi)
+                    if not r2:
+                        return r2
+                return True
             if p.kwd_patterns or len(p.patterns) > 1:
                 return None
             if p.patterns:
